@@ -543,6 +543,9 @@ fn number_format_battery(seed: u64, extra: usize, fail: &mut dyn FnMut(&str, Str
         ("1 / parseInt('-0')", "-Infinity"), ("parseInt('123456789012345678901234567890')", "1.2345678901234568e+29"),
         ("parseInt('9007199254740993')", "9007199254740992"), ("parseInt('9007199254740995')", "9007199254740996"),
         ("parseInt('7fffffffffffffff', 16)", "9223372036854776000"), ("parseInt('ffffffffffffffffffffffffffffffffffff', 16)", "2.2300745198530623e+43"),
+        ("parseInt('\\uFEFF12')", "12"), ("parseFloat('\\uFEFF\\u00A0 1.5')", "1.5"), ("parseInt('\\u008512')", "NaN"), ("Number.parseFloat('1.5abc')", "1.5"),
+        ("Number.parseInt('12px')", "12"), ("Number.parseInt('0x1f')", "31"), ("(1.5).toString(undefined)", "1.5"), ("(NaN).toPrecision(200)", "NaN"),
+        ("(Infinity).toFixed(2)", "Infinity"), ("(-Infinity).toExponential(200)", "-Infinity"), ("(255).toString(16.9)", "ff"),
         ("parseInt('1'.repeat(400))", "Infinity"), ("0xFFFFFFFFFFFFFFFFFF", "4.722366482869645e+21"), ("0xFFFFFFFFFFFFFFFF", "18446744073709552000"),
         ("Number('0x+1')", "NaN"), ("Number('0x')", "NaN"), ("Number('0b12')", "NaN"), ("Number('-0x10')", "NaN"), ("0x20000000000001", "9007199254740992"), ("0x20000000000003", "9007199254740996"),
         ("0b1", "1"), ("1_000.5", "1000.5"), (".5e1", "5"), ("5.e1", "50"), ("1E3", "1000"), ("0.1e-400", "0"), ("1e400", "Infinity"), ("0XfF", "255"), ("0B11", "3"), ("0O7", "7"), ("parseInt('1' + '0'.repeat(200), 2) === 2 ** 200", "true"),
